@@ -451,8 +451,12 @@ pub fn plan(property: &str, tier: Tier, seed: u64) -> Option<Plan> {
             (u, format!("{GEN_RULE}at least two pushes, and after the first push some later step caused internal growth (a reported capacity changed), a deduplicated push, or a reservation on a populated region; all earlier indices are re-read after every step."))
         }
         "C04" => (
-            hist_units("C04", "hist", tier.pick(1500, 12000), 640, seed, stringy, true),
-            format!("{GEN_RULE}at least two stored strings with multi-byte scalars were re-validated (from_utf8 on the bytes of every &str reachable from any read item) after every step."),
+            {
+                let mut u = hist_units("C04", "hist", tier.pick(1500, 12000), 640, seed, stringy, true);
+                u.push(crate::engines::scan::c04_unit("/repo/src"));
+                u
+            },
+            format!("{GEN_RULE}at least two stored strings with multi-byte scalars were re-validated (from_utf8 on the bytes of every &str reachable from any read item) after every step. Static half (exhaustive over the program text, not generated): every `impl Push<X> for StringRegion` header in /repo/src must have X among String, &String, &str, &&str; every `unsafe` token is listed in the evidence."),
         ),
         "C08" => {
             let mut u = hist_units("C08", "hist", tier.pick(1000, 8000), 640, seed, any_spec, false);
